@@ -183,6 +183,21 @@ def validate_traces(module, trace_files, env=None, cfgfile=None, timeout=1200, x
             raise Infra('trace validation of %s with %s produced no result:\n%s' % (tf, module, st['out'][-3000:]))
         with open(res) as f:
             r = json.load(f)
+        # vacuity guard: an execution whose trace has nothing between its Reset line and the next one was not judged at all
+        empty, prev_reset, prev_id = [], False, None
+        with open(tf, 'rb') as f:
+            for line in f:
+                is_reset = line.startswith(b'{"e":"Reset"') or line.startswith(b'{"e": "Reset"')
+                if is_reset:
+                    if prev_reset:
+                        empty.append(prev_id)
+                    m = re.search(rb'"id": ?(-?\d+)', line)
+                    prev_id = int(m.group(1)) if m else None
+                prev_reset = is_reset
+        if prev_reset:
+            empty.append(prev_id)
+        if empty and os.environ.get('VERIF_ALLOW_EMPTY') != '1':
+            raise Infra('%d execution(s) of %s left no event at all (first ids %s): the driver skipped their commands' % (len(empty), tf, empty[:5]))
         r['trace'] = tf
         r['states'] = st.get('distinct', 0)
         r['generated'] = st.get('generated', 0)
